@@ -43,6 +43,18 @@ type Case struct {
 	PauseEvery int    // adder pauses (longer than flush) after this many events (0 = never): idle flush
 	Stop       string // "", "gate" (Stop placed inside the send window), "random"
 	StopAfter  int    // for random: Stop after this many adds were started
+
+	// Retriable: the Batcher is wrapped in the real RetriableBatcher; batch seq
+	// numbers divisible by FailEvery fail their first FailN sends. FailN >
+	// Attempts exhausts the retries: the error callback runs and, with DLQ, the
+	// batch is marked as routed to the dead queue (its events are not committed
+	// by this batcher).
+	Retriable bool
+	Attempts  int
+	RetentMs  int
+	FailEvery int
+	FailN     int
+	DLQ       bool
 }
 
 type rec struct {
@@ -55,6 +67,8 @@ type rec struct {
 	Iter  []int64 `json:"iter,omitempty"`
 	Tick  int64   `json:"tick,omitempty"`
 	WallU int64   `json:"wall_us,omitempty"`
+	Att   int     `json:"att,omitempty"`
+	OK    bool    `json:"ok,omitempty"`
 }
 
 type recorder struct {
@@ -90,6 +104,7 @@ type CaseResult struct {
 	Inconclusive string
 	Fingerprint  string
 	WallStale    string // set when wall-clock staleness exceeded flush+heartbeat+slack (needs solo confirmation)
+	Stuck        string // retriable cases: no record for 15 s while work is pending (needs solo confirmation)
 	Stats        map[string]int64
 	LogSample    []rec
 }
@@ -158,12 +173,50 @@ func runCase(cs Case, io *core.ChildIO) CaseResult {
 		}
 		r.add(rec{K: "out.ret", Seq: seq})
 	}
-	b := pipeline.NewBatcher(pipeline.BatcherOptions{
+	opts := pipeline.BatcherOptions{
 		PipelineName: "verif", OutputType: "mon", OutFn: outFn, Controller: &ctl{r},
 		Workers: cs.Workers, BatchSizeCount: cs.Count, BatchSizeBytes: cs.Bytes,
 		FlushTimeout: time.Duration(cs.FlushMs) * time.Millisecond,
 		MetricCtl:    metric.NewCtl("c08", prometheus.NewRegistry(), time.Minute, 0),
-	})
+	}
+	var b interface {
+		Start(context.Context)
+		Add(*pipeline.Event)
+		Stop()
+	}
+	if cs.Retriable {
+		var amu sync.Mutex
+		attempts := map[int64]int{}
+		opts.OutFn = nil
+		send := func(_ *pipeline.WorkerData, bt *pipeline.Batch) error {
+			seq, _, _ := pipeline.VerifBatchInfo(bt)
+			amu.Lock()
+			att := attempts[seq]
+			attempts[seq] = att + 1
+			amu.Unlock()
+			r.add(rec{K: "out.call", Seq: seq, All: ids(pipeline.VerifBatchEvents(bt)), Att: att})
+			if n := len(cs.OutDelays); n > 0 {
+				if d := cs.OutDelays[int(seq)%n]; d > 0 {
+					time.Sleep(time.Duration(d) * time.Microsecond)
+				}
+			}
+			fail := cs.FailEvery > 0 && seq%int64(cs.FailEvery) == 0 && att < cs.FailN
+			r.add(rec{K: "out.ret", Seq: seq, Att: att, OK: !fail})
+			if fail {
+				return fmt.Errorf("verif: injected send failure")
+			}
+			return nil
+		}
+		onError := func(_ error, evs []*pipeline.Event) {
+			r.add(rec{K: "giveup", All: ids(evs), OK: cs.DLQ})
+		}
+		b = pipeline.NewRetriableBatcher(&opts, send, pipeline.BackoffOpts{
+			MinRetention: time.Duration(cs.RetentMs) * time.Millisecond, Multiplier: 2,
+			AttemptNum: cs.Attempts, IsDeadQueueAvailable: cs.DLQ,
+		}, onError)
+	} else {
+		b = pipeline.NewBatcher(opts)
+	}
 	ctx, cancel := context.WithCancel(context.Background())
 	defer cancel()
 	b.Start(ctx)
@@ -221,6 +274,53 @@ func runCase(cs Case, io *core.ChildIO) CaseResult {
 			doStop()
 		}
 	}
+	if cs.Retriable {
+		// every stage below is driven by the batcher itself; a batcher that stops
+		// making progress also stops its heartbeat (the logical clock), so the
+		// only observable is "no record at all for 15 s while work is pending".
+		// That is reported as Stuck and only becomes a verdict when it
+		// reproduces alone.
+		addersDone := make(chan struct{})
+		go func() { wg.Wait(); close(addersDone) }()
+		lastLen, lastChange := -1, time.Now()
+		for {
+			r.mu.Lock()
+			n, done := len(r.log), 0
+			for i := range r.log {
+				switch r.log[i].K {
+				case "commit":
+					done++
+				case "giveup":
+					if r.log[i].OK {
+						done += len(r.log[i].All)
+					}
+				}
+			}
+			r.mu.Unlock()
+			if n != lastLen {
+				lastLen, lastChange = n, time.Now()
+			}
+			finished := false
+			select {
+			case <-addersDone:
+				finished = true
+			default:
+			}
+			if finished && (cs.Stop != "" || done >= total) {
+				break
+			}
+			if time.Since(lastChange) > 15*time.Second {
+				res.Stuck = fmt.Sprintf("no Add return, send, commit or give-up for 15 s: adders finished=%v, %d of %d events committed or routed to the dead queue", finished, done, total)
+				r.mu.Lock()
+				log := append([]rec(nil), r.log...)
+				r.mu.Unlock()
+				judgeRetriable(cs, log, total, &res)
+				res.LogSample = head(log, 400)
+				return res
+			}
+			time.Sleep(5 * time.Millisecond)
+		}
+	}
 	wg.Wait()
 
 	// quiescence: every added event committed (no Stop), or Stop returned.
@@ -232,6 +332,9 @@ func runCase(cs Case, io *core.ChildIO) CaseResult {
 			for i := range r.log {
 				if r.log[i].K == "commit" {
 					n++
+				}
+				if r.log[i].K == "giveup" && r.log[i].OK {
+					n += len(r.log[i].All)
 				}
 			}
 			r.mu.Unlock()
@@ -264,7 +367,11 @@ func runCase(cs Case, io *core.ChildIO) CaseResult {
 	r.mu.Lock()
 	log := r.log
 	r.mu.Unlock()
-	judge(cs, log, kinds, sizes, total, tickEnd, &res)
+	if cs.Retriable {
+		judgeRetriable(cs, log, total, &res)
+	} else {
+		judge(cs, log, kinds, sizes, total, tickEnd, &res)
+	}
 	if len(res.Viol) > 0 || cs.Name == "sample" {
 		res.LogSample = log
 		if len(res.LogSample) > 400 {
@@ -520,6 +627,161 @@ func judge(cs Case, log []rec, kinds map[int64]string, sizes map[int64]int, tota
 	res.Fingerprint = fmt.Sprintf("w%d c%d b%d f%d a%d stop=%s %s size=%v time=%v parents=%v", cs.Workers, cs.Count, cs.Bytes, cs.FlushMs, cs.Adders, cs.Stop, invClass, closedBySize > 0, closedByTime > 0, res.Stats["parent_only_commits"] > 0)
 }
 
+// judgeRetriable is the oracle for cases that wrap the Batcher in the real
+// RetriableBatcher: the commit discipline of C08 has to survive failing sends.
+func judgeRetriable(cs Case, log []rec, total int, res *CaseResult) {
+	add := func(sig, what string, w any) {
+		if len(res.Viol) < 5 {
+			res.Viol = append(res.Viol, Viol{sig, what, w})
+		}
+	}
+	type binfo struct {
+		all     []int64
+		okT     int64 // T of the successful out.ret, -1
+		fails   int
+		giveupT int64 // T of the give-up, -1
+		dlq     bool
+	}
+	batches := map[int64]*binfo{}
+	batchOf := map[int64]int64{}
+	added := map[int64]bool{}
+	addRet := map[int64]bool{}
+	stopCalled := false
+	for _, x := range log {
+		switch x.K {
+		case "add.call":
+			added[x.ID] = true
+		case "add.ret":
+			addRet[x.ID] = true
+		case "stop.call":
+			stopCalled = true
+		case "out.call":
+			b := batches[x.Seq]
+			if b == nil {
+				b = &binfo{all: x.All, okT: -1, giveupT: -1}
+				batches[x.Seq] = b
+				for _, id := range x.All {
+					if prev, dup := batchOf[id]; dup && prev != x.Seq {
+						add("event-in-two-batches", fmt.Sprintf("event %d handed to the send function in batches %d and %d", id, prev, x.Seq), x)
+					}
+					batchOf[id] = x.Seq
+				}
+				if cs.Count > 0 && len(x.All) > cs.Count {
+					add("batch-count-exceeded", fmt.Sprintf("batch seq %d holds %d events > BatchSizeCount %d", x.Seq, len(x.All), cs.Count), x)
+				}
+			} else {
+				if fmt.Sprint(b.all) != fmt.Sprint(x.All) {
+					add("retry-with-different-events", fmt.Sprintf("attempt %d of batch %d carries %v, the first attempt carried %v", x.Att, x.Seq, x.All, b.all), x)
+				}
+				if b.okT >= 0 {
+					add("send-after-success", fmt.Sprintf("batch %d was sent again after a successful send", x.Seq), x)
+				}
+			}
+		case "out.ret":
+			if b := batches[x.Seq]; b != nil {
+				if x.OK {
+					b.okT = x.T
+				} else {
+					b.fails++
+				}
+			}
+		case "giveup":
+			if len(x.All) == 0 {
+				continue
+			}
+			seq, ok := batchOf[x.All[0]]
+			if !ok {
+				add("giveup-of-unsent-events", "the error callback was called with events that were never handed to the send function", x)
+				continue
+			}
+			b := batches[seq]
+			if b.giveupT >= 0 {
+				add("giveup-twice", fmt.Sprintf("the error callback ran twice for batch %d", seq), x)
+			}
+			b.giveupT, b.dlq = x.T, x.OK
+			if cs.Attempts >= 0 && b.fails < cs.Attempts+1 {
+				add("gave-up-too-early", fmt.Sprintf("batch %d was given up after %d failed sends, retry=%d requires %d", seq, b.fails, cs.Attempts, cs.Attempts+1), x)
+			}
+			if cs.Attempts < 0 {
+				add("gave-up-with-negative-retry", fmt.Sprintf("batch %d was given up although retry=%d means retry forever", seq, cs.Attempts), x)
+			}
+		}
+	}
+	seen := map[int64]int{}
+	lastSeq := int64(-1)
+	ncommit := 0
+	for _, cm := range log {
+		if cm.K != "commit" {
+			continue
+		}
+		ncommit++
+		seen[cm.ID]++
+		if seen[cm.ID] > 1 {
+			add("double-commit", fmt.Sprintf("event %d committed %d times", cm.ID, seen[cm.ID]), cm)
+			continue
+		}
+		if !added[cm.ID] {
+			add("commit-of-unknown-event", fmt.Sprintf("commit of id %d that was never added", cm.ID), cm)
+			continue
+		}
+		seq, sent := batchOf[cm.ID]
+		if !sent {
+			add("commit-without-send", fmt.Sprintf("event %d committed but never contained in a batch handed to the send function", cm.ID), cm)
+			continue
+		}
+		b := batches[seq]
+		switch {
+		case b.okT >= 0 && b.okT < cm.T:
+		case b.giveupT >= 0 && b.giveupT < cm.T && !b.dlq:
+		case b.giveupT >= 0 && b.dlq:
+			add("dead-queued-event-committed", fmt.Sprintf("event %d of batch %d was routed to the dead queue (retries exhausted) and still committed by this batcher", cm.ID, seq), cm)
+		default:
+			add("commit-without-successful-send", fmt.Sprintf("event %d of batch %d was committed although no send of that batch had succeeded and it had not been given up (%d failed sends, stop called=%v)", cm.ID, seq, b.fails, stopCalled), cm)
+		}
+		if seq < lastSeq {
+			add("batch-commit-out-of-order", fmt.Sprintf("batch %d committed after batch %d", seq, lastSeq), cm)
+		}
+		if seq > lastSeq {
+			lastSeq = seq
+		}
+	}
+	res.Stats["batches"] = int64(len(batches))
+	res.Stats["commits"] = int64(ncommit)
+	res.Stats["adds"] = int64(len(added))
+	res.Stats["retriable_cases"] = 1
+	var failed, gaveUp, dlq int64
+	for _, b := range batches {
+		if b.fails > 0 {
+			failed++
+		}
+		if b.giveupT >= 0 {
+			gaveUp++
+			if b.dlq {
+				dlq++
+			}
+		}
+	}
+	res.Stats["batches_with_failed_send"] = failed
+	res.Stats["batches_given_up"] = gaveUp
+	res.Stats["batches_to_dead_queue"] = dlq
+	if cs.Stop == "" && res.Stuck == "" && res.Inconclusive == "" {
+		missing := 0
+		for id := range addRet {
+			if seen[id] > 0 {
+				continue
+			}
+			if seq, ok := batchOf[id]; ok && batches[seq].giveupT >= 0 && batches[seq].dlq {
+				continue
+			}
+			missing++
+		}
+		if missing > 0 {
+			res.Inconclusive = fmt.Sprintf("%d events neither committed nor routed to the dead queue when the wait ended", missing)
+		}
+	}
+	res.Fingerprint = fmt.Sprintf("retriable w%d c%d a%d retry=%d every=%d failN=%d dlq=%v stop=%s failed=%v gaveup=%v", cs.Workers, cs.Count, cs.Adders, cs.Attempts, cs.FailEvery, cs.FailN, cs.DLQ, cs.Stop, failed > 0, gaveUp > 0)
+}
+
 // ---------- child: runs a list of cases sequentially ----------
 
 type childIn struct{ Cases []Case }
@@ -605,6 +867,53 @@ func genCases(c *core.Ctx) []Case {
 	}
 	cases[0].Name = "sample"
 	cases[0].Stop = ""
+	// the Batcher under failing sends: wrapped in the real RetriableBatcher
+	rr := c.Rand("retriable")
+	nr := c.N(36, 480)
+	for i := 0; i < nr; i++ {
+		cs := Case{Seed: c.SubSeed("rcase", i), Name: "retriable", Retriable: true}
+		cs.Workers = []int{1, 2, 4}[rr.Intn(3)]
+		cs.Count = []int{1, 2, 5}[rr.Intn(3)]
+		cs.FlushMs = []int{20, 50}[rr.Intn(2)]
+		cs.Adders = 1 + rr.Intn(3)
+		cs.PerAdder = 10 + rr.Intn(30)
+		cs.MaxSize = 20
+		cs.Attempts = []int{0, 1, 2, 3, -1}[rr.Intn(5)]
+		cs.RetentMs = []int{1, 2, 5}[rr.Intn(3)]
+		cs.FailEvery = 1 + rr.Intn(3)
+		if cs.Attempts >= 0 && rr.Intn(2) == 0 {
+			cs.FailN = cs.Attempts + 5 // exhausts the retries
+			cs.DLQ = rr.Intn(3) > 0
+		} else {
+			cs.FailN = 1 + rr.Intn(3) // recovers
+			if cs.Attempts >= 0 && cs.FailN > cs.Attempts {
+				cs.FailN = cs.Attempts
+			}
+		}
+		if rr.Intn(3) == 0 {
+			cs.OutDelays = []int{1500, 0, 300, 0}
+		}
+		if rr.Intn(3) == 0 {
+			// Stop while sends are failing and being retried
+			cs.Name = "retriable-stop"
+			cs.Stop = "random"
+			cs.RetentMs = []int{20, 50}[rr.Intn(2)]
+			cs.FailEvery = 1
+			if cs.Attempts < 2 && cs.Attempts >= 0 {
+				cs.Attempts = 2
+			}
+			if cs.FailN < 2 {
+				cs.FailN = 2
+			}
+			if cs.Attempts >= 0 && cs.FailN > cs.Attempts+1 {
+				cs.FailN = cs.Attempts + 5
+			}
+			cs.Adders = 1 + rr.Intn(2)
+			cs.PerAdder = 8 + rr.Intn(16)
+			cs.StopAfter = 1 + rr.Intn(cs.Adders*cs.PerAdder)
+		}
+		cases = append(cases, cs)
+	}
 	return cases
 }
 
@@ -662,6 +971,22 @@ func run(c *core.Ctx) {
 				c.Inconclusive("wall-clock staleness not reproduced alone")
 			}
 		}
+		if r.Stuck != "" && !confirm {
+			// wall-clock observation: only a verdict if it reproduces alone, 2 of 2
+			rep := 0
+			for k := 0; k < 2; k++ {
+				r2 := core.RunChild("batcher", childIn{[]Case{r.Case}}, core.ChildOpt{Timeout: 3 * time.Minute, GOMAXPROCS: 4})
+				var o2 childOut
+				if r2.Completed && json.Unmarshal(r2.Out, &o2) == nil && len(o2.Results) == 1 && o2.Results[0].Stuck != "" {
+					rep++
+				}
+			}
+			if rep == 2 {
+				c.Violation("batcher:stuck-after-failed-sends", r.Stuck+" (reproduced 2/2 alone)", map[string]any{"case": r.Case, "log": r.LogSample})
+			} else {
+				c.Inconclusive("a stuck retriable case did not reproduce alone")
+			}
+		}
 		if r.Stats["commits"] > 0 {
 			c.Nontrivial(r.Fingerprint)
 		}
@@ -717,6 +1042,9 @@ func run(c *core.Ctx) {
 	}
 	if c.Counter("completion_inversions") == 0 {
 		c.Fatal("no run had a later batch finishing before an earlier one")
+	}
+	if c.Counter("batches_given_up") == 0 || c.Counter("batches_to_dead_queue") == 0 || c.Counter("batches_with_failed_send") == 0 {
+		c.Fatal("the retriable cases never saw a failed send, a give-up or a dead-queue hand-over")
 	}
 	if c.Counter("closed_by_timeout") == 0 || c.Counter("closed_by_size") == 0 {
 		c.Fatal("flush-by-timeout or flush-by-size never observed")
